@@ -84,6 +84,8 @@ class Tracer:
         self.hdr_blocks = []  # root blocks of header parser calls, in order
         self.version_syms = {}
         self.zone_new = []
+        self.range_items = {}  # item symbol of a `lo..hi` range iterator -> (interval of lo, linear term of hi)
+        self.decode_stacks = []  # call stacks at the moments the zone constructor / the TZ string parser are entered
         self.top_calls = []
         self.gets = []
         self.visits = {}
@@ -164,22 +166,35 @@ class Tracer:
                 opts = []
                 for a in kw["args"]:
                     if isinstance(a, Enum) and a.path.endswith("option::Option"):
-                        ln = None
-                        if "Some" in a.variants and a.variants["Some"] and isinstance(a.variants["Some"][0], Ref) and a.variants["Some"][0].cell is not None:
-                            q = I.read(S, a.variants["Some"][0].cell, a.variants["Some"][0].path, ("c08opt",))
-                            if isinstance(q, Seq):
-                                ln = q.len
-                        opts.append((sorted(a.variants), ln))
-                self.top_calls.append({"name": inst["name"], "reads_before": len(self.order), "rest_iv": S.ivof(self.v1_rest), "rest_sym": self.v1_rest, "opts": [(v, ln is not None and (ln == self.v1_rest or same_value(S, ln, self.v1_rest))) for v, ln in opts]})
+                        # the footer: a byte slice, possibly wrapped in a small struct together with other fields
+                        lns = []
+
+                        def slices(x, depth=0):
+                            if isinstance(x, Ref) and x.cell is not None and depth < 3:
+                                q = I.read(S, x.cell, x.path, ("c08opt", depth))
+                                if isinstance(q, Seq):
+                                    lns.append(q.len)
+                                elif isinstance(q, Struct):
+                                    slices(q, depth + 1)
+                            elif isinstance(x, Struct) and depth < 3:
+                                for fld in x.fields:
+                                    slices(fld, depth + 1)
+
+                        if "Some" in a.variants and a.variants["Some"]:
+                            slices(a.variants["Some"][0])
+                        opts.append((sorted(a.variants), lns))
+                self.top_calls.append({"name": inst["name"], "reads_before": len(self.order), "rest_iv": S.ivof(self.v1_rest), "rest_sym": self.v1_rest, "opts": [(v, any(ln == self.v1_rest or same_value(S, ln, self.v1_rest) for ln in lns)) for v, lns in opts]})
             if inst["id"] in self.pstr_ids:
                 a = kw["args"][1] if len(kw["args"]) > 1 else None
                 S = kw["state"]
                 self.flags.append({"iv": S.ivof(a.sym) if isinstance(a, Scalar) else None, "rb": self.root_block(kw["site"])})
+                self.decode_stacks.append(list(I.stack))
                 S.dead = True  # the string parser itself is C09's business
                 return None
             if inst["name"].startswith("tz::timezone::TimeZone::new"):
                 S = kw["state"]
                 self.zone_new.append({"rb": self.root_block(kw["site"]), "rule": sorted(kw["args"][3].variants) if isinstance(kw["args"][3], Enum) else None, "rest_iv": S.ivof(self.v1_rest) if self.v1_rest is not None else None})
+                self.decode_stacks.append(list(I.stack))
                 S.dead = True  # zone validation is C13's business
                 return None
             if inst["name"].endswith("LocalTimeType::new") and len(kw["args"]) == 3:
@@ -264,6 +279,10 @@ class Tracer:
         if e == "iter_next":
             ctx = kw["ctx"]
             self.nexts.append({"rb": self.root_block(ctx.site), "it": self.iter_shape(ctx, kw["it"]), "stack": stack})
+            it_, item_, T_ = kw["it"], kw.get("item"), kw.get("item_state")
+            if isinstance(it_, Iter) and it_.kind == "range" and it_.n == "exclusive" and isinstance(item_, Scalar) and T_ is not None and not T_.dead and isinstance(it_.a, Scalar) and isinstance(it_.b, Scalar):
+                # `for i in lo..hi`: the item stands for every index of the range
+                self.range_items[item_.sym] = (T_.ivof(it_.a.sym), T_.term(it_.b.sym))
             return None
         return None
 
@@ -442,6 +461,16 @@ def leaves(shape):
             yield from leaves(x)
 
 
+def decode_calls(tr):
+    """Calls made after the last read that take an optional footer and lead to the zone constructor or the TZ string
+    parser (they are on the call stack when those are entered): helpers of the reading layer that happen to take an
+    Option are not the decoding step."""
+    on_stack = set()
+    for st in tr.decode_stacks:
+        on_stack.update(st[:-1])
+    return [c for c in tr.top_calls if c["reads_before"] == len(tr.order) and c["name"] in on_stack]
+
+
 def evaluate(tr, box, fields, where):
     """Compare one traced run with the RFC table. Returns (findings, stats)."""
     out = []
@@ -538,7 +567,12 @@ def evaluate(tr, box, fields, where):
         def bounded(g):
             S_ = g["state"]
             return D.lo(S_.ivof(g["index"])) == 0 and S_.entails(S_.term(g["index"]).sub(S_.term(counts["typecnt"])).addc(1))
-        idx_loop = all(bounded(g) for g in g6 + g7) and any(g["index_is_loop_counter"] for g in g6) and any(g["index_is_loop_counter"] for g in g7)
+        def counter(g):
+            if g["index_is_loop_counter"]:
+                return True
+            ri = tr.range_items.get(g["index"])  # `for i in 0..typecnt`
+            return ri is not None and ri[0] == D.point(0) and lin_is(lin_repr(ri[1]), counts["typecnt"], 1)
+        idx_loop = all(bounded(g) for g in g6 + g7) and any(counter(g) for g in g6) and any(counter(g) for g in g7)
         stats["indicator index loop"] = idx_loop
     if not pair_iters and not idx_loop:
         out.append(("PAIRS", "%s|no-pair-loop" % where, "neither an iterator nor an index loop bounded by typecnt examines the standard/wall and UT/local indicator blocks: the pairs are not examined"))
@@ -553,7 +587,7 @@ def evaluate(tr, box, fields, where):
             out.append(("DISPATCH", "%s|v1-footer" % where, "a version-1 file reaches the TZ string parser (version 1 has no footer)"))
         if not tr.zone_new:
             out.append(("DISPATCH", "%s|v1-no-zone" % where, "the version-1 path never reaches TimeZone::new"))
-        dc = [c for c in tr.top_calls if c["reads_before"] == len(tr.order)]
+        dc = decode_calls(tr)
         if not dc:
             out.append(("DISPATCH", "%s|v1-no-decode-call" % where, "no call taking an optional footer is made after the last read"))
         else:
@@ -564,7 +598,7 @@ def evaluate(tr, box, fields, where):
                 out.append(("DISPATCH", "%s|v1-footer-arg" % where, "the version-1 path passes a footer to %s" % c["name"]))
     else:
         want_flag = D.point(1) if box.get(2) == V3 else D.point(0)
-        dc = [c for c in tr.top_calls if c["reads_before"] == len(tr.order)]
+        dc = decode_calls(tr)
         if not dc or not any(v == ["Some"] and is_rest for v, is_rest in dc[0]["opts"]):
             out.append(("DISPATCH", "%s|footer-arg" % where, "the version 2+ path does not hand the rest of the file after the 64-bit data blocks to the decoding function as footer (%s)" % (dc and dc[0]["opts"],)))
         if not tr.flags:
